@@ -24,7 +24,7 @@ func (c *c06map) Del(k string)                 { delete(c.m, k) }
 func (c *c06map) Flush()                       { c.m = map[string]RedisMessage{} }
 
 // reader ops: get (DoCache GET k) | mget (DoCache MGET k k2) | multi (DoMultiCache GET k, GET k2) | helper (MGetCache k,k2)
-// writer ops: set (foreign SET k) | flush (FLUSHALL by another client) | own (SET k through this client) | drop (server kills the connection)
+// writer ops: set (foreign SET k) | mset (foreign MSET k0 k: with batch, one push [k0 k]) | flush (FLUSHALL by another client) | own (SET k through this client) | drop (server kills the connection)
 type c06cfg struct {
 	name    string
 	mode    string // optin | optout | bcast | adapter | static
@@ -34,6 +34,7 @@ type c06cfg struct {
 	gate    int // >0: every thread except r0 starts only after r0 completed that many operations (reach non-initial cache states)
 	// after: r0 performs these operations once every other thread has finished (observe the state reached)
 	after []string
+	batch bool // broadcast mode: the server announces all keys of one command in a single push
 }
 
 type c06obs struct {
@@ -57,6 +58,7 @@ func c06body(c c06cfg) func(x *vsched.Exec) {
 		e := vwNew(func(o *ClientOption, srv *simredis.Server, n *simnet.Net) {
 			srv.Do("SET", "k", "v1")
 			srv.Do("SET", "k2", "w1")
+			srv.BcastBatch = c.batch
 			o.OnInvalidations = func(m []RedisMessage) {
 				if m == nil {
 					invals = append(invals, inval{at: tick()})
@@ -186,6 +188,11 @@ func c06body(c c06cfg) func(x *vsched.Exec) {
 					case "set":
 						ver["k"]++
 						e.srv.Do("SET", "k", fmt.Sprintf("v%d", ver["k"]))
+						writes = append(writes, wr{"k", ver["k"], tick()})
+					case "mset":
+						// one command writing a key this client never read (announced first) and k
+						ver["k"]++
+						e.srv.Do("MSET", "k0", "x", "k", fmt.Sprintf("v%d", ver["k"]))
 						writes = append(writes, wr{"k", ver["k"], tick()})
 					case "set2":
 						ver["k2"]++
@@ -356,6 +363,8 @@ func TestVerif_C06(t *testing.T) {
 			{name: "adapter/multi,get+flush", mode: "adapter", readers: [][]string{{"multi", "get"}}, writer: []string{"flush"}},
 			{name: "optout/get,get+set", mode: "optout", readers: [][]string{{"get", "get"}}, writer: []string{"set"}},
 			{name: "bcast/get,get+set", mode: "bcast", readers: [][]string{{"get", "get"}}, writer: []string{"set"}},
+			{name: "bcast-batch/get,get+mset", mode: "bcast", batch: true, readers: [][]string{{"get", "get"}}, writer: []string{"mset"}},
+			{name: "bcast-batch/mget,mget+mset", mode: "bcast", batch: true, readers: [][]string{{"mget", "mget"}}, writer: []string{"mset"}},
 			{name: "static/get,get+set", mode: "static", readers: [][]string{{"get", "get"}}, writer: []string{"set"}},
 			{name: "static/multi,multi+set", mode: "static", readers: [][]string{{"multi", "multi"}}, writer: []string{"set"}},
 			{name: "optin/gated/mget,mget|get+set", mode: "optin", readers: [][]string{{"mget", "mget"}, {"get"}}, writer: []string{"set"}, gate: 1},
